@@ -8,7 +8,7 @@ import re
 from ..core import Ctx, RuleResult, finding, short, walk_no_nested
 from ..model import AnalysisError, norm
 from ..mutants import Mut
-from ..rules import fwd, dim, fresh, kind, posbound
+from ..rules import accum, fwd, dim, fresh, kind, posbound
 from ..rules.defuse import DefUse
 from ..rules.util import callee_name, calls_in, cfg_of, lin_str, linear, nodes_where
 from ..tables import C01_DIM_EXCEPTIONS
@@ -233,6 +233,7 @@ def run(ctx: Ctx):
         _apportion(ctx),
         fwd.run_fwd(p, "C01.9", ("urwid.widget",), floor=100, description="render(), rows() and pack() pass the focus flag on to the children they measure / draw, so the three agree on the size of the focused rendering"),
         _scroll_clamp(ctx),
+        accum.run_accum(p, "C01.11", "C01", floor=2),
     ]
 
 
